@@ -159,6 +159,50 @@ func checkC16(tier string) int {
 			}
 		}
 	}
+	// state carried between calls: every ordered triple of setters on ONE client
+	sts := setters()
+	for _, a := range sts {
+		for _, b := range sts {
+			for _, d := range sts {
+				for _, wm := range []libaudit.WaitMode{libaudit.WaitForReply, libaudit.NoWait} {
+					sim := ksim.New(nil)
+					sim.NoDeviations = true
+					c := &libaudit.AuditClient{Netlink: sim}
+					vals := []uint32{0xA1A2A3A4, 0x00000001, 0x7FFFFFFF}
+					seqOK := true
+					for i, st := range []setter{a, b, d} {
+						if err := st.call(c, vals[i], wm); err != nil {
+							rep("setter-sequence-error:"+st.name, "%s after %d other setters on the same client returned %v", st.name, i, err)
+							seqOK = false
+							break
+						}
+						if len(sim.Sends) != i+1 {
+							rep("setter-sequence-count", "%d requests after %d setter calls", len(sim.Sends), i+1)
+							seqOK = false
+							break
+						}
+						s := sim.Sends[i]
+						want := make([]byte, sizeofStatus)
+						binary.LittleEndian.PutUint32(want[offMask:], st.mask)
+						wv := st.val(vals[i])
+						if st.dom == "bool" {
+							wv = 1
+						}
+						binary.LittleEndian.PutUint32(want[st.off:], wv)
+						if s.Type != uapiAuditSet || string(s.Data) != string(want) {
+							rep("setter-sequence-payload:"+st.name, "%s as call %d on a client that already ran %s: payload % x, want % x (state leaked from an earlier call?)", st.name, i+1, a.name, s.Data, want)
+							seqOK = false
+							break
+						}
+					}
+					evals++
+					if seqOK {
+						nontrivial++
+					}
+				}
+			}
+		}
+	}
 	run.Sample("SetBacklogWaitTime(int32(-1), NoWait) => one AUDIT_SET(1001) flags 0x5, 44 bytes: mask=0x20 at 0, 0xffffffff at 36, zeros elsewhere")
 	// 2. GetStatus: request + every field from its own offset
 	pats := [][11]uint32{}
@@ -196,6 +240,48 @@ func checkC16(tier string) int {
 		if len(sim.Sends) != 1 || s.Type != uapiAuditGet || s.Flags != syscall.NLM_F_REQUEST|syscall.NLM_F_ACK || len(s.Data) != 0 {
 			rep("getstatus-request", "GetStatus sent %d requests; first: type %d flags %#x payload %d bytes; want one AUDIT_GET=1000 with REQUEST|ACK and no payload", len(sim.Sends), s.Type, s.Flags, len(s.Data))
 		}
+	}
+	// GetStatus with reply payloads of every length 0..80: shorter than the 2.6.32 layout must be
+	// an error, longer ones decode the fields present (rest zero), the tail is ignored
+	for n := 0; n <= 80; n++ {
+		raw := make([]byte, n)
+		for i := range raw {
+			raw[i] = byte(0x11 + i)
+		}
+		sim := ksim.New(nil)
+		sim.NoDeviations = true
+		sim.StatusRaw = raw
+		c := &libaudit.AuditClient{Netlink: sim}
+		st, err := c.GetStatus()
+		evals++
+		if n < minStatus {
+			if err == nil || st != nil {
+				rep("getstatus-short-reply-accepted", "GetStatus accepted an AUDIT_GET reply with a %d-byte payload (< 32) and returned %+v", n, st)
+			} else if !errors.Is(err, io.ErrUnexpectedEOF) {
+				rep("getstatus-short-reply-error", "GetStatus on a %d-byte reply returned %v, want an error wrapping io.ErrUnexpectedEOF", n, err)
+			} else {
+				nontrivial++
+			}
+			continue
+		}
+		if err != nil || st == nil {
+			rep("getstatus-reply-rejected", "GetStatus rejected a %d-byte reply: %v", n, err)
+			continue
+		}
+		var want [11]uint32
+		for i := 0; i < 11; i++ {
+			var b4 [4]byte
+			if 4*i < n {
+				copy(b4[:], raw[4*i:])
+			}
+			want[i] = binary.LittleEndian.Uint32(b4[:])
+		}
+		got := [11]uint32{uint32(st.Mask), st.Enabled, st.Failure, st.PID, st.RateLimit, st.BacklogLimit, st.Lost, st.Backlog, st.FeatureBitmap, st.BacklogWaitTime, st.BacklogWaitTimeActual}
+		if got != want {
+			rep("getstatus-reply-decode", "GetStatus on a %d-byte reply decoded %x, want %x", n, got, want)
+			continue
+		}
+		nontrivial++
 	}
 	// GetStatusAsync flags
 	for _, ack := range []bool{true, false} {
